@@ -5,11 +5,14 @@
 import CC.Drv.Common
 import CC.Drv.ChaCha
 import CC.Drv.Null
+import CC.Drv.Threefish
+import CC.Drv.Skein
 open CC CC.Drv
 
 structure DS where
   cfg : Cfg := {}
   chacha : CC.Drv.ChaCha.St := {}
+  skein : CC.Drv.Skein.St := {}
 
 def machOfName : String → Option CC.Simd.Mach
   | "ref" => some CC.Simd.Mach.ref
@@ -30,6 +33,10 @@ def step (ds : DS) (line : String) : DS × String :=
     let (s, out) := CC.Drv.ChaCha.step ds.cfg ds.chacha toks
     ({ ds with chacha := s }, out)
   | "null" :: _ => (ds, CC.Drv.Null.step ds.cfg toks)
+  | "tf" :: _ | "tfl" :: _ => (ds, CC.Drv.Threefish.step toks)
+  | "skein" :: _ =>
+    let (s, out) := CC.Drv.Skein.step ds.cfg ds.skein toks
+    ({ ds with skein := s }, out)
   | _ => (ds, "bad-op")
 
 partial def loop (h : IO.FS.Stream) (out : IO.FS.Stream) (ds : DS) : IO Unit := do
